@@ -95,7 +95,7 @@ func (ex *Exec) intrinsic(fn *ssa.Function, args []Value) (Value, bool) {
 				panic(pathEnd{"assume", "empty range"})
 			}
 			ex.assume(c)
-			if lo.IsConst() && hi.IsConst() && hi.val-lo.val <= 32 {
+			if lo.IsConst() && hi.IsConst() && hi.val-lo.val <= 80 {
 				// small ranges (sizes, kinds, cut positions) are case-split at once: keeps slice offsets and lengths concrete
 				return ex.ts.Const(64, ex.concretize(v)), true
 			}
